@@ -17,6 +17,21 @@ CLAIMS = {
              "Tie to the code: a recording Hasher captures the exact bytes fed by TypeHash/AlignHash of every generated type (mutants included) and they are compared byte for byte with the model's feeds; the header words are checked to be xxh3-64 of those feeds; for ~1000 (quick) ordered pairs (T, near-miss mutant U), both directions, bytes of T are read as U by the real crate and by the model in both modes: every pair must be refused with the hash found in the file.",
         note=TRUST + "That xxh3-64 separates two given different feeds cannot be proved (hypothesis H f1 <> H f2 in the theorem); it is confirmed with the real hash on every generated pair. General injectivity of the feed is false (D11, D12) and is proved only mutation by mutation. The feed of range types contains the output of stringify! inside macro_rules ('core :: ops :: Range'), i.e. depends on rustc's pretty-printer.",
         tech="Coq proofs (case analysis on the header; prefix-freeness of the string feed; per-mutation separation lemmas; computed refutations) + differential correspondence check of feeds and cross reads", ref="DESIGN.md section 7 C04"),
+    "C06": dict(
+        text="Theorems (Coq): format 1.1 is written out as a plain function from (type, value) to bytes (Model/Format.v: header = cookie, versions, pointer width, two hash words, length-prefixed type name; value in declaration order with little-endian primitives, 8-byte lengths, one-byte tags, 8-byte variant indices, zero padding to the unit of each zero-copy block, in-memory representation of the block); for every type, value, padding content and position the serializer emits exactly those bytes (C06_stream_is_format_1_1, C06_value_encoding), the value starts at offset 37 + |name|, and every conforming file decodes to its value (C06_conforming_files_decode). "
+             "Tie to the code: (a) on every generated case the real crate's bytes are compared with the model's; (b) a committed corpus of 474 golden files (bytes written by the pinned build, kept under /verif/corpus/golden with the type definitions) is, on every run, re-serialized by the current crate and compared byte for byte (padding masked), and every golden file is read by the current crate in both modes and must give the recorded value; (c) the byte feeds of both header hashes are compared with the model's recipe on every type and the header words with xxh3-64 of those feeds.",
+        note=TRUST + "The hash words are xxh3-64 of the modelled feeds: xxh3 itself is not modelled (words in golden files are the reference). The type-name string is rustc's type_name (documented as unstable across compilers); golden files pin it for this toolchain. PARTIAL: 'readable by later builds' is established against the pinned corpus and the reference encoder, not for unknown future formats.",
+        tech="Coq proof (serializer = reference encoder, by mutual induction over the type grammar; reference decoder round trip) + differential correspondence check + golden-corpus cross-build comparison", ref="DESIGN.md section 7 C06"),
+    "C08": dict(
+        text="Theorems (Coq): store writes exactly the stream; for each of the four loaders, every type (units powers of two covering native alignment), value and padding content, loading the stored file returns a structure equal to the stored value, consumes exactly the file and leaves the zero tail untouched whenever the region base is a multiple of the largest unit (C08_loaders_return_the_stored_value); the backing region starts with the file, has the rounded-up capacity (multiple of 64 / 16, less than one unit beyond the file) and is zero after the file (C08_region); the flag translation table for all 8 flag sets (C08_flags, finite domain by computation); truncated files are refused by the loaders that do not zero-extend (C08_truncated_files). "
+             "Tie to the code: one value per generated type (375 in quick) is stored (also over an existing longer file) and loaded by load_full, load_mem, load_mmap and mmap under all 8 flag sets with the real crate; the result, the backing range (hook MemCase::verif_backing_range), the tail bytes, the value after moving, boxing and use from another thread, and the translated flag bits (hook Flags::verif_mmap_flag_bits) are compared with the model and the direct oracle; a second build without the mmap feature stores and loads files of all 64 length residues.",
+        note=TRUST + "PARTIAL: validity after moves/boxing/threads rests on heap blocks and mappings not moving with their owner; the model makes moves the identity, so that facet is observed on every load, not proved. The OS (mmap, file system) and mmap-rs are trusted; page-size alignment of mappings is observed.",
+        tech="Coq proof (composition of the eps-copy round trip with the region construction; finite table by computation) + differential correspondence check on real files", ref="DESIGN.md section 7 C08"),
+    "C09": dict(
+        text="Theorems (Coq) over a ledger model of the loaders' resource steps: a successful load leaves exactly one more live resource, owned by the returned case, and dropping the case releases exactly that one (C09_success_then_release_once); a load stopping at ANY step (metadata, open, acquisition, read, deserialization error or panic) leaves the ledger unchanged (C09_failure_leaks_nothing); load_full holds nothing. "
+             "Tie to the code: around every successful load + drop (17 per case) and every failing load (28 per case: wrong type, corrupt header, truncation at several cut points, through all four loaders) the harness measures live heap bytes and blocks (counting global allocator), memory mappings (/proc/self/maps) and open descriptors; any difference is a violation with the file as replay. Lifetime part: 7 probe programs (one per access path) are compiled against /repo on every run and compared with the recorded classification. Four genuine leaks found this way are fixed in /repo (05218c1, f833d76, d735b01, 3564370); known finding D7 (copy-out of a borrowed field from a MemCase compiles) is listed.",
+        note=TRUST + "PARTIAL: 'for every safe client program' is a statement about rustc's borrow checker and is not expressible in the model: decided only on the probe family. The ledger abstracts each loader to its resource steps; its tie to the code is the measurement, not a translation.",
+        tech="Coq proof (case analysis over the stop point of each loader on a resource ledger) + leak measurements around every load + compile-outcome probes", ref="DESIGN.md section 7 C09"),
     "C07": dict(
         text="Theorems (Coq): the padding formula is the least padding for every position and every power-of-two unit up to 2^64 (C07_pad_formula); in the stream of every value of every type whose units are powers of two, for every padding content, every zero-copy block starts at a multiple of its unit and every padding run equals pad_align_to(offset, unit), is non-empty and shorter than the unit (C07_blocks_aligned); units dominate native alignment and field units (range-free types); returned count = bytes written; full-copy consumes exactly the stream. "
              "Tie to the code: block offsets/units/paddings are read from serialize_with_schema of the real crate on every generated case, counts and chunk lengths from a recording writer, consumed positions from both deserializers, and compared with the model. Known finding D10 (non power-of-two unit of RangeTo over odd-sized index types) is listed in known_findings.json and proved as a refutation lemma.",
@@ -96,7 +111,7 @@ def main():
         "hooks": {"guard": "--cfg epserde_verif",
                   "enable": "RUSTFLAGS=\"--cfg epserde_verif\" (set in the .cargo/config.toml of /verif/harness and of the generated crates)",
                   "baseline_off_cmd": "cd /repo && cargo test --workspace --no-fail-fast --offline",
-                  "source_commits": [], "add_only": True},
+                  "source_commits": ["f968b9c"], "add_only": True},
         "engines": [{"name": "coq-model+correspondence", "path": "/verif/check", "serves_properties": sorted(CLAIMS),
                      "kind_free_text": "Coq 8.16 theorems about a hand-written Gallina model; model tied to /repo by differential execution (extracted OCaml model vs generated Rust harness)"}],
         "checks": checks,
